@@ -52,6 +52,21 @@ def result(verdict, **kw):
     return r
 
 
+def from_explore(st, info, mk_violations=None):
+    """map an engine-S exploration summary (engine.xh.explore) to a result"""
+    info = dict(info)
+    info.setdefault('paths', st['paths'])
+    info.setdefault('distinct', st['paths'])
+    notes = list(info.pop('notes', [])) + [f"ignored={st['ignored']}", f"exhausted={st['exhausted']}"]
+    if st['verdict'] == 'holds':
+        return result('holds', notes=notes, **info)
+    if st['verdict'] == 'inconclusive':
+        return result('inconclusive', notes=notes + [str(st.get('driver_error', 'path tree not exhausted within the cap'))],
+                      **info)
+    viols = mk_violations(st['violations']) if mk_violations else []
+    return result('violated', notes=notes, violations=viols, **info)
+
+
 def violation(key, what, replay_kind, replay_args, **extra):
     """key: stable identifier of *what fails* (used against known_findings.jsonl);
     replay_kind/args: entry of props.replays.REPLAYS to re-run through the public API."""
@@ -157,7 +172,8 @@ def _spawn(prop, ob, tier, seed):
 
 def run_obligations(prop, obs, tier, seed, jobs=None, only=None):
     jobs = jobs or int(os.environ.get('VERIF_JOBS', os.cpu_count() or 4))
-    pending = sorted([o for o in obs if not only or o.name in only], key=lambda o: -o.weight)
+    import re as _re
+    pending = sorted([o for o in obs if not only or _re.fullmatch(only, o.name)], key=lambda o: -o.weight)
     running = []
     results = []
     while pending or running:
